@@ -14,4 +14,5 @@ INVARIANT InvLeading
 INVARIANT InvSpacing
 INVARIANT InvEvalFirst
 INVARIANT InvEnoughSteps
+INVARIANT InvOffsets
 CONSTRAINT Emit
